@@ -224,6 +224,24 @@ func c04Check(c *mon.Ctx, k *c04Case) {
 	if got, _ := ms["@timestamp"].(string); !sameTimestampText(got, want) {
 		fail("mapstr-timestamp", "ToMapStr @timestamp = %v, want %s", ms["@timestamp"], want.UTC())
 	}
+	// "always": also on a second call, after the caller has done what it likes with the first map
+	delete(ms, "raw_msg")
+	delete(ms, "@timestamp")
+	ms["record_type"], ms["sequence"] = "changed-by-caller", "changed-by-caller"
+	ms["added-by-caller"] = 1
+	var ms2 map[string]interface{}
+	if p, st := mon.Try(func() { ms2 = m.ToMapStr() }); p != nil {
+		c.Violation("panic", fmt.Sprintf("second ToMapStr panicked on %q: %v\n%s", line, p, st), k)
+		return
+	}
+	ts2, _ := ms2["@timestamp"].(string)
+	seq2, _ := ms2["sequence"].(string)
+	if ms2["record_type"] != T.String() || seq2 != strconv.FormatUint(k.Seq, 10) || ms2["raw_msg"] != m.RawData || !sameTimestampText(ts2, want) {
+		fail("mapstr-second-call", "a second ToMapStr (after the caller changed the first map) reports record_type=%v sequence=%v @timestamp=%v raw_msg present=%v; want the header's %s / %d / %s", ms2["record_type"], ms2["sequence"], ms2["@timestamp"], ms2["raw_msg"] != nil, T.String(), k.Seq, want.UTC())
+	}
+	if _, leaked := ms2["added-by-caller"]; leaked {
+		fail("mapstr-second-call", "a key the caller added to the first ToMapStr result shows up in the second result")
+	}
 }
 
 func c04Gen(r *mon.Rand, typ uint16, variant int) *c04Case {
